@@ -126,14 +126,17 @@ def writeBack (global : List Int) (sorted : List (Int × Nat)) : List Int :=
 /-- `unused_global[0..n_unused)` in array order (the `NodeIds` model keeps it as a stack) -/
 def unusedArr (s : NodeIds) : List Int := s.unusedStk.reverse
 
+/-- every rank computes the same `counts`; rank 0's copy drives the (identical) loop -/
+def headCounts (ag : List (Refine.Model.Comm.Status × List Int)) : List Int :=
+  match ag with
+  | [] => []
+  | a :: _ => a.2
+
 /-- `ref_node_eliminate_unused_globals` on every rank -/
 def eliminateUnused (w : World NodeIds) : World NodeIds :=
   let st0 : World ElimSt := w.map fun s => ⟨s.keys, sortGlob (unusedArr s)⟩
   let ag := Refine.Model.Comm.allgather RefType.int (w.map fun s => (s.nUnused : Int))
-  -- every rank computes the same `counts`; rank 0's copy drives the (identical) loop
-  let counts : List Int := match ag with
-    | [] => []
-    | a :: _ => a.2
+  let counts : List Int := headCounts ag
   let totalUnused := isum counts
   let chunk := chunkOf totalUnused w.length
   let st := elimLoop counts chunk w.length 0 st0
